@@ -36,6 +36,9 @@ class Config:
         G.set_eps()
 
 
+BIG = [False]      # catalogue anchored near the top of the coordinate range (|x| ~ 8): a relative tolerance term shows only there
+
+
 def objects(ctx, kind, frame, d1, d2=None):
     """(base object, perturbed copy, defining points of the base, perturbed defining points): catalogue objects on the
     1/8 lattice in frames with rational unit vectors; d1/d2 perturb the first / second defining point"""
@@ -44,7 +47,7 @@ def objects(ctx, kind, frame, d1, d2=None):
     else:                         # Pythagorean frame: unit vectors (1,2,2)/3, (2,1,-2)/3, (2,-2,1)/3
         e1, e2, e3 = (F(1), F(2), F(2)), (F(2), F(1), F(-2)), (F(2), F(-2), F(1))
     sc = F(3, 8) if frame != 'axis' else F(1)
-    A = (F(3, 8), F(-5, 8), F(9, 8))
+    A = (F(3, 8), F(-5, 8), F(9, 8)) if not BIG[0] else (F(31, 4), F(-8), F(13, 2))
     d2 = d2 or (F(0),) * 3
     Ap = R.vadd(A, d1)
     v1 = R.vscale(sc * 2, e1)
@@ -196,8 +199,16 @@ def fam_survive(ctx, kind, frame, hist, variant=0):
     ctx.outcome('survive')
 
 
-def fam_far(ctx, kind, frame, hist, axis):
+def fam_far(ctx, kind, frame, hist, axis, big=False):
     """Points / Vectors differing by more than 4 eps in some coordinate compare unequal"""
+    BIG[0] = big
+    try:
+        _fam_far(ctx, kind, frame, hist, axis)
+    finally:
+        BIG[0] = False
+
+
+def _fam_far(ctx, kind, frame, hist, axis):
     k = final_k(hist)
     e4 = F(4, 10 ** k)
     big = F(1, 10 ** (k - 2))
@@ -246,6 +257,7 @@ def families(tier, seed):
         for kind in ('Point', 'Vector'):
             for axis in range(3):
                 fams.append(Family('far/%s/%s/axis%d' % (kind, _hname(h), axis), fam_far, (kind, 'axis', h, axis), must_reach=('far',)))
+                fams.append(Family('far-big/%s/%s/axis%d' % (kind, _hname(h), axis), fam_far, (kind, 'axis', h, axis, True), must_reach=('far',)))
     return fams
 
 
